@@ -87,7 +87,8 @@ CHECKS = {
              'class merge; everything else untouched; failure changes nothing) on the specification; conformance: undo() '
              'on the real FileStorage must return the same oids or raise UndoError exactly as specified and all queries '
              'must equal the specification table after commit and after reopen.',
-        note='storage API level; DB.undo visibility across connections belongs to the MVCC machinery',
+        note='storage API level; visibility of an undo to other connections at their next boundary is decided by the C02 traces '
+             '(UndoVote / Deliver to every instance, cache projection at PollApply)',
         design='6/C06'),
     'C10': dict(
         technique='TLA+ spec ZStorage with uninterpreted Merge (StoredIsMerge) model-checked by TLC; behaviours replayed '
